@@ -20,8 +20,10 @@ def gen_label_body(rng, depth, budget):
             out.append(('label', rng.choice(NAMES)))
         elif k < 0.55:
             out.append(('goto', rng.choice(NAMES)))
-        elif k < 0.7:
+        elif k < 0.66:
             out.append(('ifgoto', rng.choice(NAMES)))
+        elif k < 0.7:
+            out.append(('ifelsegoto', rng.choice(NAMES), rng.choice(NAMES)))
         elif k < 0.85 and depth < 3:
             out.append(('block', gen_label_body(rng, depth + 1, budget)))
         elif depth < 3:
@@ -40,6 +42,8 @@ def label_src(stmts, ind='\t'):
             s += '%sgoto %s;\n' % (ind, st[1])
         elif st[0] == 'ifgoto':
             s += '%sif v == 1 goto %s;\n' % (ind, st[1])
+        elif st[0] == 'ifelsegoto':
+            s += '%sif v == 1 goto %s;\n%selse goto %s;\n' % (ind, st[1], ind, st[2])
         elif st[0] == 'assign':
             s += '%sv = 1;\n' % ind
         elif st[0] == 'block':
@@ -54,9 +58,10 @@ def label_oracle(stmts, outer):
     e400 = e420 = 0
     for i, st in enumerate(stmts):
         later = set(x[1] for x in stmts[i + 1:] if x[0] == 'label')
-        if st[0] in ('goto', 'ifgoto'):
-            if st[1] not in later and st[1] not in outer:
-                e400 += 1
+        if st[0] in ('goto', 'ifgoto', 'ifelsegoto'):
+            for target in st[1:]:
+                if target not in later and target not in outer:
+                    e400 += 1
         elif st[0] == 'label':
             if st[1] in later or st[1] in outer:
                 e420 += 1
@@ -73,10 +78,10 @@ def search_labels(deadline, rng):
         tried += 1
         f1 = gen_label_body(rng, 1, [6])
         f2 = gen_label_body(rng, 1, [3]) if rng.random() < 0.4 else None
-        src = 'fn main()\n{\n\tvar v = 0;\n' + label_src(f1) + '}\n'
+        src = 'fn main()\n{\n\tvar v: i32 = 0;\n' + label_src(f1) + '}\n'
         e400, e420 = label_oracle(f1, set())
         if f2 is not None:
-            src += '\nfn other()\n{\n\tvar v = 0;\n' + label_src(f2) + '}\n'
+            src += '\nfn other()\n{\n\tvar v: i32 = 0;\n' + label_src(f2) + '}\n'
             a, b = label_oracle(f2, set())
             e400 += a
             e420 += b
@@ -103,6 +108,11 @@ def search_labels(deadline, rng):
             return {'mode': 'alpha', 'input_utf8_lossy': src, 'input_hex': src.encode().hex(), 'observed': r2,
                     'expected': 'no failure of a later stage; errors %s among the reported ones' % want, 'expect_codes_present': want, 'expect_codes_absent': [c for c in ('400', '420') if c not in want]}
         codes = [c for c in r2['result'].get('errors', '[]').strip('[]').split(',') if c]
+        if not want and codes:
+            # every jump is forward/outward to a uniquely named label and nothing else is wrong with the body: it must be accepted
+            return {'mode': 'alpha', 'input_utf8_lossy': src, 'input_hex': src.encode().hex(), 'observed': r2,
+                    'expected': 'accepted: every goto names a later label of its block or of an enclosing block, every label is unique there; got errors %s' % codes,
+                    'expect_codes_present': [], 'expect_codes_absent': codes}
         if any(c not in codes for c in want) or any(c in codes for c in ('400', '420') if c not in want):
             return {'mode': 'alpha', 'input_utf8_lossy': src, 'input_hex': src.encode().hex(), 'observed': r2,
                     'expected': 'through the whole pipeline: errors %s reported, %s not reported' % (want, [c for c in ('400', '420') if c not in want]),
